@@ -994,6 +994,7 @@ func (db *DB) Batch(fn func(*Tx) error) error {
 		db.batch.timer = time.AfterFunc(db.MaxBatchDelay, db.batch.trigger)
 	}
 	db.batch.calls = append(db.batch.calls, call{fn: fn, err: errCh})
+	verifEvent(db, "batch-enqueue", len(db.batch.calls))
 	if len(db.batch.calls) >= db.MaxBatchSize {
 		// wake up batch, it's ready to run
 		go db.batch.trigger()
